@@ -575,6 +575,51 @@ impl RenderModel {
         m
     }
 
+    /// Setter calls, in one canonical order, that reach exactly this model from a default builder.
+    pub fn canonical_setters(&self) -> Vec<RSetter> {
+        let mut v = Vec::new();
+        if let Some(m) = self.margin {
+            v.push(RSetter::Margin(m));
+        }
+        if let Some(c) = &self.module_color {
+            v.push(RSetter::ModuleColor(c.clone()));
+        }
+        if let Some(c) = &self.background_color {
+            v.push(RSetter::BackgroundColor(c.clone()));
+        }
+        for (s, c) in &self.shapes {
+            match c {
+                None => v.push(RSetter::Shape(ShapeSpec(*s))),
+                Some(c) => v.push(RSetter::ShapeColor(ShapeSpec(*s), c.clone())),
+            }
+        }
+        if let Some(i) = &self.image {
+            v.push(RSetter::Image(i.clone()));
+        }
+        if let Some(c) = &self.image_bg_color {
+            v.push(RSetter::ImageBgColor(c.clone()));
+        }
+        if let Some(s) = self.image_bg_shape {
+            v.push(RSetter::ImageBgShape(s));
+        }
+        if let Some(b) = self.image_size {
+            v.push(RSetter::ImageSize(f64::from_bits(b)));
+        }
+        if let Some(b) = self.image_gap {
+            v.push(RSetter::ImageGap(f64::from_bits(b)));
+        }
+        if let Some((x, y)) = self.image_position {
+            v.push(RSetter::ImagePosition(f64::from_bits(x), f64::from_bits(y)));
+        }
+        if let Some(w) = self.fit_width {
+            v.push(RSetter::FitWidth(w));
+        }
+        if let Some(h) = self.fit_height {
+            v.push(RSetter::FitHeight(h));
+        }
+        v
+    }
+
     pub fn key(&self) -> String {
         let js = serde_json::to_string(self).expect("model serialises");
         hex128(digest128(&[js.as_bytes()]))
